@@ -12,6 +12,7 @@ Requests (whitespace separated words; rationals as `num/den`, non-finite cells a
   cert   <system(term = ford)> <data> <nG> <QMat g>…          -> `residual vector | path cells`
   simlin <system> <data>                                      -> exact zero of the affine stacked system, `singular`, or `nan`
 
+  iguess <first_order|data> <termspec as after `ford`> <baseFirst> <n> <data>   -> the main array after simulate_initial_guess
   method <string>                                             -> METHOD_NAME of the simulator module the string selects, or `KeyError`
   pair   <N> <nModel> <nData>                                 -> `k:modelVariant:dataVariant …` (`-` = none) of the zip in Inlay.simulate
   hist   <nP> q… <nInit> (q v)… <nOps> (a obj q v | c obj | s obj)…   -> per op `-` or the parameter overwrites `q=v,…`, joined by ` | `
@@ -165,6 +166,11 @@ def stepP : P String := do
     let n ← nat; let endo ← rep n nat; let first ← nat; let simLast ← nat; let fb ← rat; let d ← dataP
     let spots := wrtSpots endo (columnsToRun first simLast)
     pure (" ".intercalate ((missingSpots spots d).map (fun (q, c) => s!"{q}:{c}")) ++ " | " ++ showData (catchMissing spots fb d))
+  | "iguess" => do
+    let w ← word; let ts ← termSpec; let baseFirst ← nat; let n ← nat; let d ← dataP
+    let mode := if w = "first_order" then GuessMode.firstOrder else GuessMode.data
+    if w ≠ "first_order" ∧ w ≠ "data" then failure
+    pure (showData (initialGuess mode ts baseFirst n d))
   | "method" => do
     let w ← word
     pure (match resolveMethod w with | some m => m.name | none => "KeyError")
